@@ -32,6 +32,8 @@ type jLookup struct {
 type jField struct {
 	Name string `json:"name"`
 	Ty   int    `json:"ty"`
+	// Foreign: the field is declared in another package than the one being generated (an unexported one is then invisible)
+	Foreign bool `json:"foreign,omitempty"`
 }
 
 type jMethodInfo struct {
@@ -39,6 +41,7 @@ type jMethodInfo struct {
 	NParams int    `json:"nparams"`
 	Results []int  `json:"results"`
 	PtrRecv bool   `json:"ptrRecv,omitempty"`
+	Foreign bool   `json:"foreign,omitempty"`
 }
 
 type jTy struct {
@@ -537,7 +540,7 @@ func ExtractFacts(srcPath, dstPath, rel string) (*Facts, error) {
 			for i := 0; i < x.NumMethods(); i++ {
 				m := x.Method(i)
 				sig := m.Type().(*types.Signature)
-				mi := jMethodInfo{Name: m.Name(), NParams: sig.Params().Len(), Results: []int{}}
+				mi := jMethodInfo{Name: m.Name(), NParams: sig.Params().Len(), Results: []int{}, Foreign: m.Pkg() != nil && m.Pkg().Path() != pkg.PkgPath}
 				if recv := sig.Recv(); recv != nil {
 					_, mi.PtrRecv = recv.Type().(*types.Pointer)
 				}
@@ -576,7 +579,7 @@ func ExtractFacts(srcPath, dstPath, rel string) (*Facts, error) {
 			j.IsStruct = true
 			for i := 0; i < st.NumFields(); i++ {
 				fl := st.Field(i)
-				j.Fields = append(j.Fields, jField{Name: fl.Name(), Ty: u.id(fl.Type())})
+				j.Fields = append(j.Fields, jField{Name: fl.Name(), Ty: u.id(fl.Type()), Foreign: fl.Pkg() != nil && fl.Pkg().Path() != pkg.PkgPath})
 			}
 		}
 		if b, ok := under.(*types.Basic); ok && b.Kind() == types.Invalid {
